@@ -22,6 +22,12 @@ LM = "QtLogger::LogMessage"
 OT = "QtLogger::OwnThreadHandler"
 
 
+def is_container_type_name(n):
+    """`wait`/`acquire` spelled on something that is not a synchronisation object"""
+    c = n.get("callee") or ""
+    return c.startswith(("QString::", "QByteArray::", "QList<", "QVector<", "QHash<", "QMap<"))
+
+
 def run(ck):
     F = ck.facts
     from rules.oth import resolve_roles
@@ -227,6 +233,15 @@ def handoff(ck, proc):
     other_runs = [n for n in proc.calls() if n.get("virtual") and name_is(n.get("callee"), "QtLogger::Handler::process") and g.site_of(n) in live_w]
     ck.ob("C03-O3", sitestr(proc), not ran and not other_runs, "%s: with a worker no handler runs in the logging call" % tag if not (ran or other_runs) else
           "%s: with a worker the logging call still runs %s synchronously (blocks on the sinks, and the message is delivered twice)" % (tag, describe((ran + other_runs)[0])), key="OwnThreadHandler::process|runs-handler-async")
+    # "the logging call never blocks on a sink": with a worker the call neither loops nor sleeps / waits — a producer that is made to wait
+    # for the backlog to shrink waits for the sinks (and, holding the logger's mutex, makes every other producer wait too)
+    WAITS = ("msleep", "usleep", "sleep", "sleep_for", "sleep_until", "wait", "acquire", "tryAcquire", "waitForFinished", "processEvents", "yieldCurrentThread", "yield", "exec")
+    loops_w = [l for l in find_loops(proc) if (g.site_of(l.get("cond")) if isinstance(l.get("cond"), dict) else None) in live_w or any(g.site_of(x) in live_w for x in walk(l.get("body") or {}) if g.site_of(x) is not None)]
+    waits_w = [n for n in proc.calls() if (n.get("callee") or "").split("::")[-1] in WAITS and g.site_of(n) in live_w and not is_container_type_name(n)]
+    blk = loops_w or waits_w
+    ck.ob("C03-O3", sitestr(proc, (loops_w + waits_w)[0]) if blk else sitestr(proc), not blk, "%s: with a worker the logging call contains no loop and no sleeping or waiting call" % tag if not blk else
+          "%s: with a worker the logging call %s: a producer ahead of the sinks is made to wait for them (back-pressure), which is exactly what asynchronous mode promises not to do" %
+          (tag, "loops (%s)" % describe(loops_w[0].get("cond"))[:60] if loops_w else "calls %s" % describe(waits_w[0])[:40]), key="OwnThreadHandler::process|blocks-async")
     okp = g.must_pass({ps}, keep=keep_w) and not g.in_cycle(ps)
     ck.ob("C03-O3", sitestr(proc, p), okp, "%s: with a worker exactly one event is posted on every path" % tag if okp else "%s: with a worker the post is conditional or repeated" % tag, key="OwnThreadHandler::process|post-conditional")
     # O2
